@@ -633,3 +633,9 @@ unit("C15", "cdm.serial")(cdm_unit("run_cdm_serial", "sno", "i", "j", "k", lambd
 
 
 from . import C15w  # noqa: E402,F401  (the model functions around the kernels)
+
+# the conversion of array charge into clusters (what makes `simple_collection` add exactly the generated charge when array models and cluster
+# models are mixed) and the binning back are C14's units; they count for C15 too
+from . import C14 as _C14  # noqa: E402
+unit("C15", "charge.array_to_df")(_C14.array_to_df)
+unit("C15", "charge.mixed_routing")(_C14.mixed_routing)
